@@ -24,11 +24,16 @@ import (
 // ---------------------------------------------------------------- names
 
 // abstract names of the specification <-> concrete values of the scripted cluster
+// aK: the address clients connect to (a scripted node listens there); bK: the node-to-node
+// (peer / broadcast) address of a multi-homed node, nothing listens there; cK / l0: the
+// preferred_ip of host iK / the listen_address of the control node (never an index key, never
+// dialed - decoys that every lookup probes).
 func vfC16IP(a string) string {
-	if a == "a0" {
-		return "10.0.0.100"
+	net3 := map[byte]string{'a': "10.0.0.", 'b': "10.1.0.", 'c': "10.2.0.", 'l': "10.3.0."}[a[0]]
+	if a[1:] == "0" {
+		return net3 + "100"
 	}
-	return "10.0.0." + strings.TrimPrefix(a, "a")
+	return net3 + a[1:]
 }
 
 func vfC16UUID(i string) string {
@@ -40,7 +45,8 @@ func vfC16UUID(i string) string {
 type vfC16Names struct {
 	addrOf map[string]string // ip -> abstract
 	idOf   map[string]string // uuid -> abstract
-	addrs  []string
+	addrs  []string          // connect addresses (one scripted node each)
+	probe  []string          // every address a lookup by address is tried with
 	ids    []string
 }
 
@@ -50,6 +56,16 @@ func vfC16NewNames(nIds, nAddrs int) *vfC16Names {
 		a := fmt.Sprintf("a%d", k)
 		n.addrs = append(n.addrs, a)
 		n.addrOf[vfC16IP(a)] = a
+		b := fmt.Sprintf("b%d", k)
+		n.probe = append(n.probe, a, b)
+		n.addrOf[vfC16IP(b)] = b
+	}
+	n.probe = append(n.probe, "l0")
+	n.addrOf[vfC16IP("l0")] = "l0"
+	for k := 0; k <= nIds; k++ {
+		c := fmt.Sprintf("c%d", k)
+		n.probe = append(n.probe, c)
+		n.addrOf[vfC16IP(c)] = c
 	}
 	for k := 0; k <= nIds; k++ {
 		i := fmt.Sprintf("i%d", k)
@@ -83,8 +99,15 @@ func (n *vfC16Names) I(uuid string) string {
 
 type vfC16Row struct {
 	ID   string `json:"id"`
+	Addr string `json:"addr"` // rpc_address
+	Peer string `json:"peer"` // peer (node-to-node address); "" = same as Addr
+	Inv  string `json:"inv"`  // ok | notokens | norack | nodc | nohostid | norpc
+}
+
+type vfC16HA struct {
+	ID   string `json:"id"`
 	Addr string `json:"addr"`
-	Inv  string `json:"inv"` // ok | notokens | norack | nodc | nohostid | norpc
+	N2N  string `json:"n2n"`
 }
 
 type vfC16Ev struct {
@@ -100,12 +123,13 @@ type vfC16PA struct {
 type vfC16Host struct {
 	ID   string `json:"id"`
 	Addr string `json:"addr"`
+	N2N  string `json:"n2n"`
 	Up   bool   `json:"up"`
 }
 
 // vfC16Exp is the model's driver state after a step (used as the waiting criterion only).
 type vfC16Exp struct {
-	Hosts     []vfC16PA `json:"hosts"`
+	Hosts     []vfC16HA `json:"hosts"`
 	ByAddr    []vfC16PA `json:"byaddr"`
 	Pool      []string  `json:"pool"`
 	Pol       []string  `json:"pol"`
@@ -128,6 +152,7 @@ type vfC16Scenario struct {
 	NIds  int         `json:"nids"`
 	NAddr int         `json:"naddrs"`
 	Filt  []string    `json:"filt"`
+	C0    string      `json:"c0peer"` // broadcast_address of the control node: a0 (default) or b0
 	Init  []vfC16Row  `json:"init"`
 	Exp0  *vfC16Exp   `json:"exp0,omitempty"`
 	Steps []vfC16Step `json:"steps"`
@@ -144,8 +169,9 @@ type vfC16Rec struct {
 	Evs       []vfC16Ev   `json:"evs"`
 	Addr      string      `json:"addr"`
 	Filt      []string    `json:"filt"`
+	C0        string      `json:"c0peer"`
 	Hosts     []vfC16Host `json:"hosts"`
-	ByID      []vfC16PA   `json:"byid"`
+	ByID      []vfC16HA   `json:"byid"`
 	ByAddr    []vfC16PA   `json:"byaddr"`
 	HList     []string    `json:"hlist"`
 	Pool      []vfC16PA   `json:"pool"`
@@ -174,7 +200,10 @@ type vfC16World struct {
 	cut       []*Conn // connections the current step has cut from the node side: quiescence needs the driver to have noticed
 	mismatch  bool    // a step ended in a state other than the one that came with the history
 	stalled   bool    // the session was still busy at the hard limit of a wait
-	debounced int32   // direct mode: a debounced ring refresh has been requested
+	tmu       sync.Mutex
+	truth     []vfC16Row // what the control node reports in system.peers
+	fail      string     // none | local | peers
+	debounced int32      // direct mode: a debounced ring refresh has been requested
 	rr        *roundRobinHostPolicy
 	spawns    int64 // successful pool connects (each one starts a handleNodeConnected goroutine)
 	hostUps   int64 // HostUp calls that reached the policy (end of handleNodeConnected)
@@ -244,44 +273,103 @@ func (w *vfC16World) pendingUps() int64 {
 
 var vfC16Tokens = map[string][]string{}
 
-func vfC16Desc(r vfC16Row) vfHostDesc {
+// The control node answers system.local / system.peers itself (not the default handler of
+// harness/common, whose hosts have a single address): every row carries its own rpc_address,
+// peer / broadcast_address and preferred_ip / listen_address.
+var vfC16LocalCols = []vfCol{
+	{"key", vfTVarchar}, {"cluster_name", vfTVarchar}, {"data_center", vfTVarchar}, {"rack", vfTVarchar},
+	{"host_id", vfTUUID}, {"release_version", vfTVarchar}, {"partitioner", vfTVarchar},
+	{"rpc_address", vfTInet}, {"broadcast_address", vfTInet}, {"listen_address", vfTInet}, {"tokens", vfTSet}, {"schema_version", vfTUUID},
+}
+
+var vfC16PeerCols = []vfCol{
+	{"peer", vfTInet}, {"data_center", vfTVarchar}, {"rack", vfTVarchar}, {"host_id", vfTUUID},
+	{"release_version", vfTVarchar}, {"rpc_address", vfTInet}, {"preferred_ip", vfTInet}, {"tokens", vfTSet}, {"schema_version", vfTUUID},
+}
+
+func vfC16Num(id string) int {
 	n := 0
-	fmt.Sscanf(strings.TrimPrefix(r.ID, "i"), "%d", &n)
-	d := vfHostDesc{ID: vfC16UUID(r.ID), Addr: vfC16IP(r.Addr), DC: "dc1", Rack: "r1",
-		Tokens: []string{fmt.Sprintf("%d", (n+1)*1000)}}
-	switch r.Inv {
-	case "notokens":
-		d.NoTokens = true
-	case "norack":
-		d.NoRack = true
-	case "nodc":
-		d.NoDC = true
-	case "nohostid":
-		d.NoHostID = true
-	case "norpc":
-		d.NoRPC = true
-	}
-	return d
+	fmt.Sscanf(strings.TrimPrefix(id, "i"), "%d", &n)
+	return n
 }
 
 func (w *vfC16World) setTruth(rows []vfC16Row) {
-	hs := []vfHostDesc{vfC16Desc(vfC16Row{ID: "i0", Addr: "a0", Inv: "ok"})}
-	for _, r := range rows {
-		hs = append(hs, vfC16Desc(r))
-	}
-	w.cl.Set(hs)
+	w.tmu.Lock()
+	w.truth = append([]vfC16Row(nil), rows...)
+	w.tmu.Unlock()
 }
 
 func (w *vfC16World) setFail(f string) {
-	w.cl.mu.Lock()
-	w.cl.FailLocal = f == "local"
-	w.cl.FailPeers = f == "peers"
-	w.cl.mu.Unlock()
+	w.tmu.Lock()
+	w.fail = f
+	w.tmu.Unlock()
+}
+
+// systemTables answers the control node's system.local / system.peers queries.
+func (w *vfC16World) systemTables(nc *vfNodeConn, f *vfFrame, stmt string) bool {
+	low := strings.ToLower(stmt)
+	w.tmu.Lock()
+	rows, fail := append([]vfC16Row(nil), w.truth...), w.fail
+	w.tmu.Unlock()
+	inet := func(a string) []byte { return vfCellInet(net.ParseIP(vfC16IP(a))) }
+	const part, ver = "org.apache.cassandra.dht.Murmur3Partitioner", "3.11.4"
+	switch {
+	case strings.Contains(low, "system.local"):
+		if fail == "local" {
+			nc.Reply(f, vfOpError, vfErrorBody(0x0000, "vf: local unavailable", nil))
+			return true
+		}
+		c0 := w.sc.C0
+		if c0 == "" {
+			c0 = "a0"
+		}
+		row := [][]byte{vfCellText("local"), vfCellText("vf"), vfCellText("dc1"), vfCellText("r1"),
+			vfCellUUID(vfMustUUID(vfC16UUID("i0"))), vfCellText(ver), vfCellText(part),
+			inet("a0"), inet(c0), inet("l0"), vfSetCell(f.Version, []string{"1000"}), vfCellUUID(vfSchemaVersion)}
+		nc.Reply(f, vfOpResult, vfRowsBody(f.Version, "system", "local", vfC16LocalCols, [][][]byte{row}, nil, false))
+		return true
+	case strings.Contains(low, "system.peers_v2"):
+		nc.Reply(f, vfOpError, vfErrorBody(0x2200, "unconfigured table peers_v2", nil))
+		return true
+	case strings.Contains(low, "system.peers"):
+		if fail == "peers" {
+			nc.Reply(f, vfOpError, vfErrorBody(0x0000, "vf: peers unavailable", nil))
+			return true
+		}
+		var out [][][]byte
+		for _, r := range rows {
+			peer := r.Peer
+			if peer == "" {
+				peer = r.Addr
+			}
+			n := vfC16Num(r.ID)
+			row := [][]byte{inet(peer), vfCellText("dc1"), vfCellText("r1"), vfCellUUID(vfMustUUID(vfC16UUID(r.ID))),
+				vfCellText(ver), inet(r.Addr), inet(fmt.Sprintf("c%d", n)), vfSetCell(f.Version, []string{fmt.Sprintf("%d", (n+1)*1000)}), vfCellUUID(vfSchemaVersion)}
+			switch r.Inv {
+			case "nodc":
+				row[1] = nil
+			case "norack":
+				row[2] = nil
+			case "nohostid":
+				row[3] = nil
+			case "norpc":
+				row[5] = nil
+			case "notokens":
+				row[7] = nil
+			}
+			out = append(out, row)
+		}
+		nc.Reply(f, vfOpResult, vfRowsBody(f.Version, "system", "peers", vfC16PeerCols, out, nil, false))
+		return true
+	}
+	return false
 }
 
 func vfC16NewWorld(sc *vfC16Scenario) (*vfC16World, error) {
 	w := &vfC16World{sc: sc, names: vfC16NewNames(sc.NIds, sc.NAddr), nodes: map[string]*vfNode{}, filt: map[string]bool{}}
 	w.cl = &vfCluster{Partitioner: "org.apache.cassandra.dht.Murmur3Partitioner", Version: "3.11.4"}
+	w.cl.Set([]vfHostDesc{{ID: vfC16UUID("i0"), Addr: vfC16IP("a0"), DC: "dc1", Rack: "r1", Tokens: []string{"1000"}}})
+	w.fail = "none"
 	w.setTruth(sc.Init)
 	var nodes []*vfNode
 	for _, a := range w.names.addrs {
@@ -307,6 +395,9 @@ func vfC16NewWorld(sc *vfC16Scenario) (*vfC16World, error) {
 			if a != "a0" && strings.Contains(q.Stmt, "system.local") {
 				nc.Reply(f, vfOpError, vfErrorBody(0x0000, "vf: this node does not act as control node", nil))
 				return true
+			}
+			if a == "a0" {
+				return w.systemTables(nc, f, q.Stmt)
 			}
 			return false
 		}
@@ -361,9 +452,9 @@ func (w *vfC16World) close() {
 
 func (w *vfC16World) project(withQueries bool) *vfC16Rec {
 	s, nm := w.s, w.names
-	r := &vfC16Rec{Hosts: []vfC16Host{}, ByID: []vfC16PA{}, ByAddr: []vfC16PA{}, HList: []string{}, Pool: []vfC16PA{}, Pol: []vfC16PA{}, Served: []string{}}
+	r := &vfC16Rec{Hosts: []vfC16Host{}, ByID: []vfC16HA{}, ByAddr: []vfC16PA{}, HList: []string{}, Pool: []vfC16PA{}, Pol: []vfC16PA{}, Served: []string{}}
 	for _, h := range s.ring.allHosts() {
-		r.Hosts = append(r.Hosts, vfC16Host{ID: nm.I(h.HostID()), Addr: nm.A(h.ConnectAddress()), Up: h.IsUp()})
+		r.Hosts = append(r.Hosts, vfC16Host{ID: nm.I(h.HostID()), Addr: nm.A(h.ConnectAddress()), N2N: nm.A(h.nodeToNodeAddress()), Up: h.IsUp()})
 	}
 	sort.Slice(r.Hosts, func(i, j int) bool { return r.Hosts[i].ID < r.Hosts[j].ID })
 	// lookup by id: every id of the universe and every id the ring lists
@@ -380,11 +471,12 @@ func (w *vfC16World) project(withQueries bool) *vfC16Rec {
 		}
 		seen[u] = true
 		if h := s.ring.getHost(u); h != nil {
-			r.ByID = append(r.ByID, vfC16PA{ID: nm.I(u), Addr: nm.A(h.ConnectAddress())})
+			r.ByID = append(r.ByID, vfC16HA{ID: nm.I(u), Addr: nm.A(h.ConnectAddress()), N2N: nm.A(h.nodeToNodeAddress())})
 		}
 	}
 	sort.Slice(r.ByID, func(i, j int) bool { return r.ByID[i].ID < r.ByID[j].ID })
-	for _, a := range nm.addrs {
+	// lookup by address: every address any host has or had (connect, node-to-node, preferred, listen)
+	for _, a := range nm.probe {
 		if h, ok := s.ring.getHostByIP(vfC16IP(a)); ok {
 			id := "none"
 			if h != nil {
@@ -453,6 +545,14 @@ func vfC16Pairs(l []vfC16PA) []string {
 	return out
 }
 
+func vfC16HAs(l []vfC16HA) []string {
+	out := []string{}
+	for _, p := range l {
+		out = append(out, p.ID+"@"+p.Addr+"/"+p.N2N)
+	}
+	return out
+}
+
 func vfC16IDs(l []vfC16PA) []string {
 	out := []string{}
 	for _, p := range l {
@@ -465,13 +565,13 @@ func vfC16IDs(l []vfC16PA) []string {
 func (w *vfC16World) matches(r *vfC16Rec, e *vfC16Exp, refreshes int) bool {
 	hp, down := []string{}, []string{}
 	for _, h := range r.Hosts {
-		hp = append(hp, h.ID+"@"+h.Addr)
+		hp = append(hp, h.ID+"@"+h.Addr+"/"+h.N2N)
 		if !h.Up {
 			down = append(down, h.ID)
 		}
 	}
 	return refreshes >= e.Refreshes &&
-		vfC16SetEq(hp, vfC16Pairs(e.Hosts)) &&
+		vfC16SetEq(hp, vfC16HAs(e.Hosts)) &&
 		vfC16SetEq(vfC16Pairs(r.ByAddr), vfC16Pairs(e.ByAddr)) &&
 		vfC16SetEq(vfC16IDs(r.Pool), e.Pool) &&
 		vfC16SetEq(vfC16IDs(r.Pol), e.Pol) &&
@@ -718,6 +818,20 @@ func vfC16Run(sc *vfC16Scenario, out *vfNDJSON) (steps int, timeouts int, err er
 	if sc.Mode == "" {
 		sc.Mode = "direct"
 	}
+	if sc.C0 == "" {
+		sc.C0 = "a0"
+	}
+	norm := func(rows []vfC16Row) {
+		for i := range rows {
+			if rows[i].Peer == "" {
+				rows[i].Peer = rows[i].Addr
+			}
+		}
+	}
+	norm(sc.Init)
+	for i := range sc.Steps {
+		norm(sc.Steps[i].Rows)
+	}
 	w, err := vfC16NewWorld(sc)
 	if err != nil {
 		return 0, 0, err
@@ -730,6 +844,7 @@ func vfC16Run(sc *vfC16Scenario, out *vfNDJSON) (steps int, timeouts int, err er
 	}
 	fill := func(r *vfC16Rec, k int, st *vfC16Step) {
 		r.Sc, r.K, r.Mode, r.Filt = sc.N, k, sc.Mode, append([]string{}, sc.Filt...)
+		r.C0 = sc.C0
 		if st != nil {
 			r.Op, r.Rows, r.Fail, r.Evs, r.Addr = st.Op, st.Rows, st.Fail, st.Evs, st.Addr
 		}
@@ -797,8 +912,8 @@ func vfC16Run(sc *vfC16Scenario, out *vfNDJSON) (steps int, timeouts int, err er
 		out.Write(rec)
 	}
 	if w.stalled {
-		out.Write(&vfC16Rec{Sc: sc.N, K: -1, Mode: sc.Mode, Op: "stalled", Rows: []vfC16Row{}, Fail: "none", Evs: []vfC16Ev{}, Filt: []string{},
-			Hosts: []vfC16Host{}, ByID: []vfC16PA{}, ByAddr: []vfC16PA{}, HList: []string{}, Pool: []vfC16PA{}, Pol: []vfC16PA{}, Served: []string{}})
+		out.Write(&vfC16Rec{Sc: sc.N, K: -1, Mode: sc.Mode, Op: "stalled", Rows: []vfC16Row{}, Fail: "none", Evs: []vfC16Ev{}, Filt: []string{}, C0: sc.C0,
+			Hosts: []vfC16Host{}, ByID: []vfC16HA{}, ByAddr: []vfC16PA{}, HList: []string{}, Pool: []vfC16PA{}, Pol: []vfC16PA{}, Served: []string{}})
 	}
 	if w.mismatch {
 		timeouts = 1
